@@ -49,17 +49,18 @@ def judge(mid, tier="quick", keep_output=False):
 
 
 def main(argv):
+    tier = "thorough" if "--thorough" in argv else "quick"
     ids = [a for a in argv if not a.startswith("-")] or sorted(x for x in os.listdir(SEEDED) if os.path.isfile(os.path.join(SEEDED, x, "patch.diff")))
     missed, errors = [], []
     for mid in ids:
-        r = judge(mid, keep_output=True)
+        r = judge(mid, tier=tier, keep_output=True)
         print(json.dumps(r))
         sys.stdout.flush()
         meta = json.load(open(os.path.join(SEEDED, mid, "meta.json")))
         if r.get("error") or r.get("rc") == 2:
             errors.append(mid)
         elif not r.get("detected"):
-            if meta.get("expected_quick") == "miss":
+            if meta.get("expected_quick") == "miss" and tier == "quick":
                 print("  (%s is documented as caught by the thorough tier only)" % mid)
             else:
                 missed.append(mid)
